@@ -76,8 +76,21 @@ def oracle(s):
     return r
 
 
+# second alphabet: bracketed expression statements (dict / set / list / generator displays, comprehensions), the
+# statement kinds `infer_cst_type` tells apart by their first character
+ALPHA2 = ["\n", "    ", "{", "}", "[", "]", "(", ")", ":", ",", "x", "1", " for x in y", "#", "'''", "=", "@"]
+
+
 def layer_exhaustive(ctx):
-    L = ctx.cfg["exh_len"]
+    _exhaustive(ctx, "exhaustive", ALPHA, ctx.cfg["exh_len"])
+
+
+def layer_exhaustive2(ctx):
+    _exhaustive(ctx, "exhaustive-brackets", ALPHA2, ctx.cfg["exh_len"] - 1)
+
+
+def _exhaustive(ctx, layer, ALPHA, L):
+    ctx.layer = layer
     n = 0
     complete = True
     for length in range(0, L + 1):
@@ -96,7 +109,7 @@ def layer_exhaustive(ctx):
         if not complete:
             break
     if complete:
-        ctx.mark_exhaustive("exhaustive", "all sequences of <=%d tokens over the %d-token alphabet (%d strings over all shards)" % (L, len(ALPHA), n))
+        ctx.mark_exhaustive(layer, "all sequences of <=%d tokens over the %d-token alphabet (%d strings over all shards)" % (L, len(ALPHA), n))
     else:
         ctx.stats.notes.append("exhaustive layer cut at deadline in shard %d" % ctx.shard)
 
@@ -113,7 +126,7 @@ def _corpus_lines():
 
 def layer_hypothesis(ctx):
     lines = _corpus_lines()
-    tok = st.sampled_from(ALPHA + ["\t", "\r", "\f", " ", "\\\n", "\n\n", "'''\n", '"""\n', "@deco\n", "def f(a,\n", "):\n", "lambda: ", "é", " "])
+    tok = st.sampled_from(ALPHA + ALPHA2 + ["{1: 2}", "{1, 2}", "[x for x in y]", "(x for x in y)", "\t", "\r", "\f", " ", "\\\n", "\n\n", "'''\n", '"""\n', "@deco\n", "def f(a,\n", "):\n", "lambda: ", "é", " "])
     strat = st.one_of(
         st.lists(st.one_of(tok, st.sampled_from(lines)), max_size=30).map("".join),
         st.lists(tok, max_size=60).map("".join),
@@ -207,7 +220,7 @@ def _minimise(s):
     return s
 
 
-LAYERS = [("exhaustive", layer_exhaustive), ("hypothesis", layer_hypothesis), ("files", layer_files)]
+LAYERS = [("exhaustive", layer_exhaustive), ("exhaustive-brackets", layer_exhaustive2), ("hypothesis", layer_hypothesis), ("files", layer_files)]
 
 
 def replay(case):
